@@ -161,6 +161,52 @@ func runRemote(o *opts) {
 				s.count("file-equal-to-a-sibling-directory-manifest")
 			}
 		}
+		// the cache as an older dud left it: the directory manifests of the outputs in the old schema
+		// (push and fetch walk them like current ones)
+		if rr.chance(1, 3) {
+			nOld := 0
+			for _, sf := range stages {
+				rec := loadStage(filepath.Join(p.Root, sf))
+				if rec == nil {
+					continue
+				}
+				changed := false
+				for k := range rec.Out {
+					if rec.Out[k].IsDir && !rec.Out[k].Skip && rec.Out[k].Cs != "" {
+						superseded, rewrittenNew = nil, map[string]bool{}
+						rec.Out[k].Cs = rewriteManifest(p.CacheDir, rec.Out[k].Cs, "", func(string) bool { return true }, &nOld)
+						// (the current-format twins stay: another stage may share a sub-tree)
+						changed = true
+					}
+				}
+				if changed {
+					p.writeStage(sf, rec)
+				}
+			}
+			if nOld > 0 {
+				s.count("old-schema-manifests")
+				ref = p.observe()
+			}
+		}
+		// the stage file says `disable-recursion` by now, the committed manifest is a recursive one: what
+		// travels is what the MANIFEST reaches
+		if rr.chance(1, 4) {
+			for _, sf := range stages {
+				rec := loadStage(filepath.Join(p.Root, sf))
+				if rec == nil {
+					continue
+				}
+				for k := range rec.Out {
+					if rec.Out[k].IsDir && !rec.Out[k].NoRec {
+						rec.Out[k].NoRec = true
+						p.writeStage(sf, rec)
+						s.count("flag-disable-recursion-added-after-commit")
+						break
+					}
+				}
+			}
+			ref = p.observe()
+		}
 		s.count(fmt.Sprintf("stages:%d", nst))
 		// some objects are already on the remote
 		if rr.chance(1, 2) {
